@@ -56,6 +56,7 @@ def parseOp (s : String) : Option Op :=
   | ["pong", h] => do pure (.pong (← Hex.decode h))
   | ["close", c, r] => do pure (.close (← optNat c) (← optHex r))
   | ["hs"] => pure .hsDone
+  | ["hsx", h, _] => do pure (.hsThenFeed (← Hex.decode h))
   | _ => none
 
 def ncr : NCR → String
